@@ -59,7 +59,10 @@ impl GraphStore for GraphEngine {
         #[cfg(luqing_studio_nervusdb_verif)]
         nervusdb_api::verif_hooks::sched("snapshot.after_i2e");
         let inner = self.begin_read();
-        let tombstoned_nodes: HashSet<InternalNodeId> = collect_tombstoned_nodes(inner.runs());
+        let mut tombstoned_nodes: HashSet<InternalNodeId> = collect_tombstoned_nodes(inner.runs());
+        tombstoned_nodes.extend(i2e.iter().enumerate().filter_map(|(iid, r)| {
+            (r.flags & crate::idmap::I2E_FLAG_TOMBSTONED != 0).then_some(iid as InternalNodeId)
+        }));
         StorageSnapshot {
             inner,
             i2e,
